@@ -50,6 +50,11 @@ Section Chain.
     map (fun i => map (q_entry2 xs ys o i) (seq 0 (length ys))) (seq 0 (length xs)).
 End Chain.
 
+(* a box [a1,b1]x[a2,b2] avoids the origin when one of its two coordinate intervals does (the Levy measure of a box is finite
+   exactly then) *)
+Definition avoids (a b : Q * Q) : Prop := fst b < 0 \/ 0 < fst a \/ snd b < 0 \/ 0 < snd a.
+Definition qsum2 (m : list (list Q)) : Q := qsum (map qsum m).
+
 (* TruncatedLevyMeasure.integrate: clip the interval to the truncations, then integrate the inner measure *)
 Definition tmass (mass : Q -> Q -> Q) (l r a b : Q) : Q :=
   let '(aa, bb) := truncated_interval l r a b in mass aa bb.
